@@ -1079,7 +1079,9 @@ func (w *c43World) genFetch(t *rapid.T) c43Fetch {
 	// ---- Authorization
 	auths := []string{"", "", "", "", "Bearer wrongsecret", "Bearer", "Basic " + base64.StdEncoding.EncodeToString([]byte("verifroot:r00tpass"))}
 	if w.cdn != "" {
-		auths = append(auths, "Bearer "+w.cdn, "Bearer "+w.cdn, "Bearer "+w.cdn+"x", "Bearer "+w.cdn[:len(w.cdn)-1], "Basic "+w.cdn)
+		auths = append(auths, "Bearer "+w.cdn, "Bearer "+w.cdn, "Bearer "+w.cdn+"x", "Bearer "+w.cdn[:len(w.cdn)-1], "Basic "+w.cdn,
+			// equal to the secret only under case folding (round-3 seeded change C43-s3: EqualFold comparison)
+			"Bearer "+strings.ToUpper(w.cdn), "Bearer "+strings.ToLower(w.cdn))
 	}
 	f.auth = rapid.SampledFrom(auths).Draw(t, "auth")
 	switch {
